@@ -17,7 +17,7 @@ open Lz4V Lz4V.Util Lz4V.Go Lz4V.Model
 /-- a failure point: `-1` never; `k` from the k-th call on; `k!` (a transient failure of the k-th call only) is
 the same for the model, because no Writer or Reader calls its sink or source again after a failure -/
 def optNat (s : String) : Option Nat :=
-  let s := s.replace "!" ""
+  let s := (s.replace "!" "").replace "~" ""
   if s == "-1" || s == "-" then none else s.toNat?
 
 def loadBlob (t : String) : IO (Array UInt8) := do
@@ -215,5 +215,14 @@ def hmSession (f : List String) : String :=
     let (_, out, e2) := FrameR.read (FrameR.new { data := inp }) 16
     s!"vfh={vfh} read={out.size}/{errName e2}"
   | _ => "bad-op"
+
+/-- `PL op…`: a history on the block-buffer pools.  Whatever `sync.Pool` returns (`Props.Pool.get_size`), a
+buffer obtained for class `idx` has length and capacity `poolSize idx`: that is all the model has to say. -/
+def plSession (f : List String) : String :=
+  " ".intercalate (f.map (fun op =>
+    if op.startsWith "g" then
+      let n := FrameW.poolSize (op.drop 1).toString.toNat!
+      s!"{n}/{n}"
+    else "-"))
 
 end Lz4V.Session
